@@ -48,3 +48,24 @@ Definition post_open (cfg : vconfig) (st : fstep) : bool :=
 (* the zero-window clause (c05_zero_window_ok) for the polls that end with the connection still open *)
 Definition c05_zero_window_ok_open (cfg : vconfig) (st : fstep) : bool :=
   if post_open cfg st then c05_zero_window_ok cfg st else true.
+
+(* the known class D16 as the step theorem has it: as c05_d16_class, but the FIN may follow the segment
+   the RTO branch transmitted in the same poll (then last_sent_seq_nr is the FIN's number) - the same
+   allowance c05_rto_single_ok makes *)
+Definition c05_d16_class2 (cfg : vconfig) (st : fstep) : bool :=
+  match fs_event st, fs_result st with
+  | FePoll _, FrPoll PollPending pkts _ _ =>
+      let pre := fs_pre st in let post := fs_post st in
+      (f_last_remote_window post =? 0) && timer_expired (f_t_retransmit pre) (fs_now st) &&
+      (f_rto_retx post =? f_rto_retx pre + 1) &&
+      match filter (fun p => negb (was_sent_before pre p)) (filter fq_is_data pkts) with
+      | [p] => (ch_seq (fq_hdr p) =? f_last_sent_seq_nr post) ||
+               (ch_seq (fq_hdr p) =? wsub16 (f_last_sent_seq_nr post) 1)
+      | _ => false
+      end
+  | _, _ => false
+  end.
+
+(* "no NEW payload into a zero window" outside the known class D16, for the polls that end open *)
+Definition c05_zero_window_strict_or_d16_open (cfg : vconfig) (st : fstep) : bool :=
+  if post_open cfg st then c05_zero_window_strict cfg st || c05_d16_class2 cfg st else true.
